@@ -155,6 +155,7 @@ pub fn judge(c: &Case, res: &ChildResult, rep: &mut Report) {
         }
     } else {
         rep.witness("stops_that_timed_out");
+        rep.notes.push(format!("stop() timed out (5 s) for {} - runs per task {runs:?}", c.to_json()));
     }
 }
 
